@@ -208,8 +208,11 @@ def structural_diff(a, b, path="definition", seen=None, depth=0) -> Optional[str
                 return d
         return None
     if isinstance(a, dict) and isinstance(b, dict):
-        if list(a.keys()) != list(b.keys()):
-            return f"{path}: keys/order {list(a.keys())} vs {list(b.keys())}"
+        registry = path in ("definition.containers", "definition.parameters", "definition.parameter_types")
+        # the name registries of a definition are lookup tables: which names they hold matters, not the order in which the
+        # constructor / loader happened to register them (entry lists, enumerations etc. stay ordered)
+        if (sorted(map(str, a.keys())) != sorted(map(str, b.keys()))) if registry else (list(a.keys()) != list(b.keys())):
+            return f"{path}: keys{'' if registry else '/order'} {list(a.keys())} vs {list(b.keys())}"
         for k in a:
             d = structural_diff(a[k], b[k], f"{path}[{k!r}]", seen, depth + 1)
             if d:
@@ -401,6 +404,22 @@ def minimal_src(date="2024-01-01T00:00:00") -> str:
         containers.SequenceContainer("CCSDSPacket", [P[n] for n in {[n for n, _ in HEADER]!r}]),
         containers.SequenceContainer("ONE", [P[n] for n in {list(types)!r}], base_container_name="CCSDSPacket",
                                      restriction_criteria=[{M}.Comparison("1", "PKT_APID")]),
+      ], ns={{"xtce": "{URI}"}}, xtce_ns_prefix="xtce", date={date!r}))({{p.name: p for p in [{", ".join(params)}]}})"""
+
+
+def nested_src(date="2024-01-01T00:00:00") -> str:
+    """A definition assembled from objects whose container_set lists only the root; the other containers are reachable
+    through nested references three levels deep (ROOT -> OUTER -> INNER -> LEAF) and must be registered from there."""
+    params = []
+    for n, w in HEADER:
+        params.append(f'parameters.Parameter("{n}", parameter_types.IntegerParameterType("{n}_T", {_int(w)}))')
+    for n in ("PA", "PB", "PC", "PD"):
+        params.append(f'parameters.Parameter("{n}", parameter_types.IntegerParameterType("{n}_T", {_int(8)}))')
+    return f"""(lambda P: XtcePacketDefinition([
+        containers.SequenceContainer("CCSDSPacket", [P[n] for n in {[n for n, _ in HEADER]!r}] + [P["PA"],
+            containers.SequenceContainer("OUTER", [P["PB"],
+                containers.SequenceContainer("INNER", [P["PC"],
+                    containers.SequenceContainer("LEAF", [P["PD"]])])])]),
       ], ns={{"xtce": "{URI}"}}, xtce_ns_prefix="xtce", date={date!r}))({{p.name: p for p in [{", ".join(params)}]}})"""
 
 
